@@ -19,7 +19,9 @@ CHECK = {
     "props": "Props/C12.v",
     "theorems": ["c12_invariant", "c12_limit", "c12_atomic", "c12_names_roundtrip_partial",
                  "c12_unhinted_names_roundtrip_partial", "c12_exact_is_equal",
-                 "c12_ext_rcode_refuted_prefix", "c12_ext_rcode_kept"],
+                 "c12_ext_rcode_refuted_prefix", "c12_ext_rcode_kept",
+                 "c12_ops_never_panic", "c12_run_never_panics", "c12_no_spurious_truncation_rr",
+                 "c12_no_spurious_truncation_rrset", "c12_no_spurious_truncation_question"],
     "allowed_axioms": [],
     "suites": [{
         "name": "writer",
